@@ -1821,9 +1821,31 @@ class LHopital(Rule):
             return e
 
         numerator, denominator = e.body.args
+        conds = ctx.get_conds()
+
+        def tends_to(t):
+            # 0, 'inf' or None (anything else / unknown)
+            if e.lim == POS_INF:
+                l = limits.reduce_inf_limit(t, e.var, conds)
+            elif e.lim == NEG_INF:
+                l = limits.reduce_neg_inf_limit(t, e.var, conds)
+            else:
+                try:
+                    l = full_normalize(t.subst(e.var, e.lim), ctx)
+                except ZeroDivisionError:
+                    return None
+            if l in (POS_INF, NEG_INF):
+                return 'inf'
+            if l.is_constant() and abs(expr.eval_expr(l)) < 1e-12:
+                return 0
+            return None
+
+        kind = tends_to(numerator)
+        if kind is None or kind != tends_to(denominator):
+            raise AssertionError("LHopital: %s is not of the form 0/0 or oo/oo" % e)
         rule = DerivativeSimplify()
-        return expr.Limit(e.var, e.lim, Op('/', rule.eval(Deriv(e.var, numerator), ctx),
-                                           rule.eval(Deriv(e.var, denominator), ctx)), e.drt)
+        return expr.Limit(e.var, e.lim, rule.eval(Deriv(e.var, numerator), ctx) /
+                          rule.eval(Deriv(e.var, denominator), ctx), e.drt)
 
 
 def check_item(item, target=None, *, debug=False):
